@@ -167,10 +167,14 @@ impl GrafeoDB {
                 let wal_path = db_path.join("wal");
 
                 // Check if WAL exists and recover if needed
-                if wal_path.exists() {
+                let recovered = wal_path.exists();
+                if recovered {
                     let recovery = WalRecovery::new(&wal_path);
                     let records = recovery.recover()?;
                     Self::apply_wal_records(&store, &records)?;
+                    // Cut off a torn or corrupt tail so that new records are
+                    // appended where recovery can reach them.
+                    recovery.repair()?;
                 }
 
                 // Open/create WAL manager with configured durability
@@ -193,6 +197,14 @@ impl GrafeoDB {
                     ..WalConfig::default()
                 };
                 let wal_manager = WalManager::with_config(&wal_path, wal_config)?;
+                if recovered {
+                    // Records that recovery dropped because no commit marker covered them
+                    // are still in the log. Abort them explicitly, otherwise the next
+                    // commit marker would bring them back on the following open.
+                    wal_manager.log(&WalRecord::TxAbort {
+                        tx_id: grafeo_common::types::TxId::SYSTEM,
+                    })?;
+                }
                 Some(Arc::new(wal_manager))
             } else {
                 None
